@@ -12,6 +12,7 @@ pub trait ContentAddrStore {}
 
 // ---- tmelcrypt
 #[derive(Clone, Copy, PartialEq, Eq, Hash, Structural)] pub struct HashVal(pub [u8; 32]);
+impl core::ops::Deref for HashVal { type Target = [u8]; #[verifier::external_body] fn deref(&self) -> (r: &[u8]) ensures r@ == self.0@ { unimplemented!() } }
 pub uninterp spec fn spec_zero_hash() -> HashVal;
 impl HashVal {
     #[verifier::external_body] pub fn default() -> (r: HashVal) ensures r == spec_zero_hash() { unimplemented!() }
